@@ -166,8 +166,10 @@ func init() {
 		return nil
 	})
 	vhreg("Thorough", func(fr *frame, args []value) value { return fr.eng().cfg.Thorough })
+	vhreg("Repeats", func(fr *frame, args []value) value { return 1 })
 	vhreg("MapOrders", func(fr *frame, args []value) value {
-		fr.i.mapOrders = args[0].(bool)
+		fr.i.mapOrders = int(asInt64(args[0]))
+		fr.i.orderDecided = false
 		return nil
 	})
 
